@@ -159,12 +159,12 @@ class Interp:
             if m is not None:
                 r = self.truth(self.call_func(Closure(m, self_obj=right), [left], {}, node), node)
                 return r if isinstance(op, ast.In) else not r
-        if isinstance(op, (ast.LtE, ast.GtE, ast.Lt, ast.Gt)) and isinstance(left, (set, frozenset)) and isinstance(right, (set, frozenset)):
+        if isinstance(op, (ast.LtE, ast.GtE, ast.Lt, ast.Gt, ast.Eq, ast.NotEq)) and isinstance(left, (set, frozenset)) and isinstance(right, (set, frozenset)):
             def _in(x, coll):
                 return any(x is y or x == y for y in coll)
             sub = all(_in(x, right) for x in left)
             sup = all(_in(x, left) for x in right)
-            return {ast.LtE: sub, ast.GtE: sup, ast.Lt: sub and not sup, ast.Gt: sup and not sub}[type(op)]
+            return {ast.LtE: sub, ast.GtE: sup, ast.Lt: sub and not sup, ast.Gt: sup and not sub, ast.Eq: sub and sup, ast.NotEq: not (sub and sup)}[type(op)]
         if isinstance(op, (ast.In, ast.NotIn)):
             if isinstance(right, (list, tuple, set, dict, frozenset)):
                 try:
